@@ -10,6 +10,7 @@ import ast
 
 from .common import *
 from .errors import AnalysisError
+from .interp import NONE
 from . import spec
 
 M_MAX = 100  # concrete stand-in for max_time so that interval facts on `time` are decidable
@@ -134,7 +135,15 @@ def loop_paths(ctx, heap=None, collections=None, havoc_on_call=True, bind=None, 
     for st in starts:
         st.heap[("self", "time")] = Poly.sym("self.time")
         st.bounds["self.time"] = (0, None)
-        outs = I.run_block(f, loop.body, st=st, heap=heap)
+        body, post = step_stmts(ctx)
+        outs = []
+        for s1, ex in I.run_block(f, body, st=st, heap=heap):
+            if ex is not None and ex[0] == "break":
+                # the loop is left through its condition: what follows the loop (status handling) belongs to this exit
+                for s2, ex2 in (I.run_block(f, post, st=s1) if post else [(s1, None)]):
+                    outs.append((s2, ex2 if ex2 is not None else ("return", NONE)))
+            else:
+                outs.append((s1, ex))
         for s1, ex in outs:
             ph = []
             for ev in s1.trace:
